@@ -98,7 +98,8 @@ def program(r, non_ascii=False, max_records=5, names_non_ascii=False):
             ident = mode[key]
             args = {formals[0]: subj, formals[1]: obj}
             ex = []
-            if ident or kind not in NOQUAL:
+            plain = (not ident) and r.random() < 0.35      # a plain binary relation: the unqualified PROV-O triple
+            if (ident or kind not in NOQUAL) and not plain:
                 for f in formals[2:]:
                     if r.random() < 0.5:
                         args[f] = val_dt(r, as_="dt") if f in gen.TIME_ATTRS else name(["x1", "x2"])
